@@ -300,6 +300,9 @@ def run(ctx: Ctx):
 
     # ---------------- S6 lr write-through ----------------------------------------------
     _s6(ctx, upd, rd, pm, rowvar, rel, W("update_for_epoch"))
+    # a restarted controller reads the history back: the header must be there whatever state the file was in
+    from .c16 import history_header_rule
+    history_header_rule(ctx, "S1")
     plumbing(ctx, "S0", g4=False)
     return dict(
         explanation=(
@@ -488,6 +491,7 @@ def _mutants():
     from selftest.mutate import Mutant as M
     T = "training.py"
     return [
+        M("header-only-if-missing", T, "write_header = not os.path.exists(self.state_csv_path) or os.path.getsize(self.state_csv_path) == 0", "write_header = not os.path.exists(self.state_csv_path)", "header-iff-the-history-is-empty"),
         M("parse-col-from-other", T, "'rlr_resume_cd': int(row['rlr_resume_cd'])", "'rlr_resume_cd': int(row['es_resume_cd'])",
           "update_cache::column(rlr_resume_cd)"),
         M("parse-lr-as-int", T, "'lr': float(row['lr'])", "'lr': int(float(row['lr']))", "column(lr)"),
